@@ -13,6 +13,16 @@ def _attrs(o):
 
 
 def _one(job):
+    vlib.alarm(900)
+    try:
+        return _one_inner(job)
+    except vlib.WorkerHang:
+        return {"path": job[0], "status": "ok", "problems": [("hang", "checking the file did not finish within 900 s")], "writers": []}
+    finally:
+        vlib.alarm(0)
+
+
+def _one_inner(job):
     import random, observe
     from vsg import config, rule_list, vhdlFile, apply_rules
     from vsg.vhdlFile import utils as vu
